@@ -26,7 +26,7 @@ RULE = ("datasets: plain {flat gzip, flat no-gzip, deep gzip behind the "
         "minishards per shard, 12 written by the harness's own specification-"
         "only writer with minishard indices and data in other orders, 8 with .shard files and .index/.data pairs mixed in one scale) x grids 2^3 and (3,2,1), as .shard files and "
         "split into legacy .index/.data; URL spellings {plain, trailing "
-        "slash, precomputed:// prefix, https}. A state = (history prefix, "
+        "slash, precomputed:// prefix, https, percent-escaped directory names}. A state = (history prefix, "
         "answers given so far); a transition = one answered request. "
         "Deviation menus per request kind (HEAD / plain GET / Range GET): "
         "404, 403, 500, 503, 200 ignoring Range, short/long replies "
@@ -57,7 +57,8 @@ HOW_TO_READ = ("case: dataset description + url + 'deviations' = {request "
                "op ['again', ...] = the re-fetch after the server recovered")
 
 URLS = ["http://sim/ds", "http://sim/ds/", "precomputed://http://sim/ds",
-        "https://sim/ds/"]
+        "https://sim/ds/", "http://sim/my%20data/ds",
+        "precomputed://https://sim/%C3%BC/ds/"]
 KEY = se.KEY
 
 
@@ -118,6 +119,10 @@ def build(ds, root):
     returns the list of (chunk coords, payload)"""
     d = os.path.join(root, "ds")
     os.makedirs(d)
+    # the same dataset is also reachable below directory names that need
+    # percent-escapes in a URL
+    for alias in ("my data", "\u00fc"):
+        os.symlink(".", os.path.join(root, alias))
     from neuroglancer_scripts import accessor
     if ds["kind"] == "plain":
         info = {"type": "image", "data_type": "uint8", "num_channels": 1,
@@ -320,6 +325,14 @@ def judge_fault(col, case, ds, ref_out, out, devs, log, marks):
         want = refd.get(repr(op))
         c2 = dict(case, op=list(op) if isinstance(op, tuple) else op)
         if op == "open":
+            if (res[0] == "ok" and res != ref_out[0][1] and devs
+                    and min(devs) > 0):
+                # the first request (the info) was answered truthfully and
+                # declared the dataset's kind: a failure of a LATER request
+                # must not silently change the accessor class
+                ok = False
+                col.violation("C14/dispatch/accessor-class-changed-by-a-"
+                              "later-failure", c2, ref_out[0][1], res)
             if res[0] == "error":
                 # only the documented error classes for plain datasets
                 if plain and res[1] != "DataAccessError":
@@ -582,6 +595,8 @@ def eval_dispatch(col):
         root = sandbox.fresh_dir("c14d")
         try:
             os.makedirs(os.path.join(root, "ds"))
+            for alias in ("my data", "\u00fc"):
+                os.symlink(".", os.path.join(root, alias))
             if info is not None:
                 with open(os.path.join(root, "ds", "info"), "w") as f:
                     f.write(info if isinstance(info, str)
